@@ -25,6 +25,7 @@ import (
 
 	"github.com/olric-data/olric/internal/cluster/partitions"
 	"github.com/olric-data/olric/internal/protocol"
+	"github.com/olric-data/olric/pkg/storage"
 )
 
 var (
@@ -34,6 +35,60 @@ var (
 	// ErrNoSuchLock is returned when the requested lock does not exist
 	ErrNoSuchLock = errors.New("no such lock")
 )
+
+// checkLockOwnership verifies that the lock entry stored on this member, the partition
+// owner, still belongs to the token. The caller has to hold the fragment's lock: the lock
+// may have expired and may have been acquired by somebody else since the token was compared
+// with the result of a Get call.
+func checkLockOwnership(f *fragment, hkey uint64, token []byte) error {
+	entry, err := f.storage.Get(hkey)
+	if errors.Is(err, storage.ErrKeyNotFound) {
+		return ErrNoSuchLock
+	}
+	if err != nil {
+		return err
+	}
+	if isKeyExpired(entry.TTL()) || !bytes.Equal(entry.Value(), token) {
+		return ErrNoSuchLock
+	}
+	return nil
+}
+
+// deleteLockKey releases the lock if it still belongs to the token. The comparison and the
+// deletion run under the fragment's lock.
+func (dm *DMap) deleteLockKey(key string, token []byte) error {
+	hkey := partitions.HKey(dm.name, key)
+	part := dm.getPartitionByHKey(hkey, partitions.PRIMARY)
+	f, err := dm.loadOrCreateFragment(part)
+	if err != nil {
+		return err
+	}
+
+	f.Lock()
+	defer f.Unlock()
+
+	if !f.storage.Check(hkey) {
+		// This member may have become the partition owner recently: the lock can
+		// still live on a previous owner or only on the backup owners.
+		return dm.deleteOnOtherOwners(hkey, key)
+	}
+	if err = checkLockOwnership(f, hkey, token); err != nil {
+		return err
+	}
+	return dm.deleteOnCluster(hkey, key, f)
+}
+
+// expireLockKey updates the expiry of the lock if it still belongs to the token. The
+// comparison and the update run under the fragment's lock, see checkPutConditions.
+func (dm *DMap) expireLockKey(ctx context.Context, key string, token []byte, timeout time.Duration) error {
+	e := newEnv(ctx)
+	e.putConfig = &PutConfig{OnlyUpdateTTL: true}
+	e.dmap = dm.name
+	e.key = key
+	e.timeout = timeout
+	e.lockToken = token
+	return dm.put(e)
+}
 
 // unlockKey tries to unlock the lock by verifying the lock with token.
 func (dm *DMap) unlockKey(ctx context.Context, key string, token []byte) error {
@@ -61,8 +116,11 @@ func (dm *DMap) unlockKey(ctx context.Context, key string, token []byte) error {
 		return ErrNoSuchLock
 	}
 
-	// release it.
-	_, err = dm.deleteKeys(ctx, key)
+	// release it, unless it expired and somebody else acquired it in the meantime.
+	err = dm.deleteLockKey(key, token)
+	if errors.Is(err, ErrNoSuchLock) {
+		return err
+	}
 	if err != nil {
 		return fmt.Errorf("unlock failed because of delete: %w", err)
 	}
@@ -194,8 +252,11 @@ func (dm *DMap) leaseKey(ctx context.Context, key string, token []byte, timeout 
 		return ErrNoSuchLock
 	}
 
-	// update
-	err = dm.Expire(ctx, key, timeout)
+	// update, unless it expired and somebody else acquired it in the meantime.
+	err = dm.expireLockKey(ctx, key, token, timeout)
+	if errors.Is(err, ErrNoSuchLock) {
+		return err
+	}
 	if err != nil {
 		return fmt.Errorf("lease failed: %w", err)
 	}
